@@ -65,14 +65,13 @@ impl CachedPlan {
     /// Return true if a set of input and output nodes matches those used to
     /// create the plan.
     pub fn matches(&self, inputs: &[NodeId], outputs: &[NodeId]) -> bool {
+        // The lengths are equal and the cached IDs are unique, so the request
+        // matches if every cached ID occurs in it. Checking the reverse (every
+        // requested ID is cached) would accept requests with repeated IDs.
         let input_match = inputs.len() == self.inputs.len()
-            && inputs
-                .iter()
-                .all(|node_id| self.inputs.binary_search(node_id).is_ok());
+            && self.inputs.iter().all(|node_id| inputs.contains(node_id));
         let output_match = outputs.len() == self.outputs.len()
-            && outputs
-                .iter()
-                .all(|node_id| self.outputs.binary_search(node_id).is_ok());
+            && self.outputs.iter().all(|node_id| outputs.contains(node_id));
         input_match && output_match
     }
 
